@@ -156,7 +156,9 @@ class RepetitionPulseTemplate(LoopPulseTemplate, ParameterConstrainer, Measureme
             data = dict()
             data['body'] = serializer.dictify(self.body)
 
-        data['repetition_count'] = self.repetition_count.original_expression
+        # the serialized form of the expression (a plain int / float / the original string), not the object the count
+        # was given as: a numpy integer is not JSON serializable
+        data['repetition_count'] = self.repetition_count.get_serialization_data()
 
         if self.parameter_constraints:
             data['parameter_constraints'] = [str(c) for c in self.parameter_constraints]
